@@ -112,17 +112,18 @@ def sym_allocated(ex, state, x):
 def build_shapes(reg):
     reg.shape("Fut", fields={"done": "bool", "ok": "bool", "res_id": "int"})
     reg.shape("HandlerRec", cls=RQ + ":Handler", fields={"fn": "any", "obj": "any", "details_arg": "any"})
-    reg.shape("PublishRequest", cls=RQ + ":PublishRequest",
+    reg.shape("Request", cls=RQ + ":Request", fields={"request_id": "int", "on_reply": "sym:Fut"})
+    reg.shape("PublishRequest", cls=RQ + ":PublishRequest", heap_base="Request",
               fields={"request_id": "int", "on_reply": "sym:Fut", "was_encrypted": "bool"})
-    reg.shape("SubscribeRequest", cls=RQ + ":SubscribeRequest",
+    reg.shape("SubscribeRequest", cls=RQ + ":SubscribeRequest", heap_base="Request",
               fields={"request_id": "int", "on_reply": "sym:Fut", "topic": "str", "handler": "sym:HandlerRec"})
-    reg.shape("UnsubscribeRequest", cls=RQ + ":UnsubscribeRequest",
+    reg.shape("UnsubscribeRequest", cls=RQ + ":UnsubscribeRequest", heap_base="Request",
               fields={"request_id": "int", "on_reply": "sym:Fut", "subscription_id": "int"})
-    reg.shape("RegisterRequest", cls=RQ + ":RegisterRequest",
+    reg.shape("RegisterRequest", cls=RQ + ":RegisterRequest", heap_base="Request",
               fields={"request_id": "int", "on_reply": "sym:Fut", "procedure": "str", "endpoint": "sym:HandlerRec"})
-    reg.shape("UnregisterRequest", cls=RQ + ":UnregisterRequest",
+    reg.shape("UnregisterRequest", cls=RQ + ":UnregisterRequest", heap_base="Request",
               fields={"request_id": "int", "on_reply": "sym:Fut", "registration_id": "int"})
-    reg.shape("CallRequest", cls=RQ + ":CallRequest",
+    reg.shape("CallRequest", cls=RQ + ":CallRequest", heap_base="Request",
               fields={"request_id": "int", "on_reply": "sym:Fut", "procedure": "str", "options": "any"})
     reg.shape("Subscription", cls=RQ + ":Subscription",
               fields={"id": "int", "topic": "str", "active": "bool", "session": "any", "handler": "sym:HandlerRec"})
